@@ -172,8 +172,9 @@ type interp struct {
 	curBlk  *ssa.BasicBlock
 	lazy    bool
 	restart bool
-	inlined bool  // running as an inlined callee: Return hands its values to the caller
-	retVals []val // the values of the Return that ended an inlined callee
+	dyn     map[*Obj]types.Type // dynamic type of pointers that were boxed into an interface on this path
+	inlined bool                // running as an inlined callee: Return hands its values to the caller
+	retVals []val               // the values of the Return that ended an inlined callee
 }
 
 // Enumerate enumerates the paths of fn.
@@ -1036,6 +1037,14 @@ func (it *interp) instr(in ssa.Instruction) {
 		}
 		// nil comparisons on non-term values
 		if _, isNil := b.(nilv); isNil {
+			if _, aNil := a.(nilv); aNil && (x.Op == token.EQL || x.Op == token.NEQ) {
+				if x.Op == token.EQL {
+					it.env[x] = tv{Leaf("#true")}
+				} else {
+					it.env[x] = tv{Leaf("#false")}
+				}
+				return
+			}
 			switch av := a.(type) {
 			case tv:
 				it.env[x] = tv{T(binName(x.Op), av.t, Leaf("nil"))}
@@ -1089,7 +1098,17 @@ func (it *interp) instr(in ssa.Instruction) {
 		it.env[x] = tv{T("conv", contentOfVal(v))}
 	case *ssa.ChangeType, *ssa.ChangeInterface, *ssa.MakeInterface:
 		ops := in.Operands(nil)
-		it.env[in.(ssa.Value)] = it.get(*ops[0])
+		v := it.get(*ops[0])
+		if mi, ok := in.(*ssa.MakeInterface); ok {
+			// remember the dynamic type of a pointer boxed into an interface (decides later type assertions and invokes)
+			if p, ok := v.(ptr); ok && p.idx == -1 {
+				if it.dyn == nil {
+					it.dyn = map[*Obj]types.Type{}
+				}
+				it.dyn[p.o] = mi.X.Type()
+			}
+		}
+		it.env[in.(ssa.Value)] = v
 	case *ssa.SliceToArrayPointer:
 		s, ok := it.get(x.X).(slc)
 		if ok && s.lo == 0 {
@@ -1127,6 +1146,22 @@ func (it *interp) instr(in ssa.Instruction) {
 			value = slc{o: o, lo: 0, hi: -1}
 		} else {
 			value = tv{T("as:"+tn, src)}
+		}
+		if p, ok := it.get(x.X).(ptr); ok && it.dyn != nil && it.dyn[p.o] != nil && !types.IsInterface(x.AssertedType) {
+			same := types.Identical(it.dyn[p.o], x.AssertedType)
+			if x.CommaOk {
+				okT := Leaf("#false")
+				if same {
+					okT = Leaf("#true")
+					value = p
+				}
+				it.env[x] = tup{[]val{value, tv{okT}}}
+				return
+			}
+			if same {
+				it.env[x] = p
+				return
+			}
 		}
 		if x.CommaOk {
 			it.env[x] = tup{[]val{value, tv{T("typeis:"+tn, src)}}}
